@@ -347,9 +347,9 @@ LEVEL = {
 }
 
 TEXT = {
-    "C01": "Bounded model checking (Kani/CBMC) of the real poll/wake code: scripted children whose every decision (Pending, self-wake, wake a sibling, Ready/item/None) and every between-poll wake-up is a solver variable; asserts the lost-wake invariant W after every Pending poll and fire phase, that woken children are polled, and that no wake panics or re-locks; plus unit proofs of the real WakerArray/WakerVec (std).",
-    "C02": "BMC with drop-accounting tokens: every scripted child and every value carries a counter checked at its Drop (double drop fails at the drop site) and at the end (leak), with the combinator dropped after a solver-chosen number of polls (0, mid-flight, after completion).",
-    "C03": "BMC: the scripted children assert inside poll that they are polled only inside their owner's poll, never after Ready/None, never after the combinator decided, never after removal - in every schedule harness, including stale wake-ups fired after completion.",
+    "C01": "Bounded model checking (Kani/CBMC) of the real poll/wake code: scripted children whose every decision (Pending, self-wake, wake a sibling, Ready/item/None) and every between-poll wake-up is a solver variable; asserts the lost-wake invariant W after every Pending poll and fire phase, that woken children are polled, and that no wake panics or re-locks; plus unit proofs of the real WakerArray/WakerVec (std). Nests of combinators (join in join, try_join in try_join, merge in merge) are decided in the no_std configuration; FutureGroup/StreamGroup in std with wake-ups between operations and, with the first outcome of each member scripted, from inside member polls.",
+    "C02": "BMC with drop-accounting tokens: every scripted child and every value carries a counter checked at its Drop (double drop fails at the drop site) and at the end (leak), with the combinator dropped after a solver-chosen number of polls (0, mid-flight, after completion). Every nostd/alloc schedule harness ends by dropping the combinator and checking the accounts; groups (alloc) included.",
+    "C03": "BMC: the scripted children assert inside poll that they are polled only inside their owner's poll, never after Ready/None, never after the combinator decided, never after removal - in every schedule harness, including stale wake-ups fired after completion. Group members included; the real FromStream::drive (stream.co()) is run over a scripted source stream with a harness consumer: the source is never polled after None.",
     "C04": "BMC of join over tuple/array/Vec: Ready exactly in the poll in which the last child resolves, each output at its child's position, zero children resolve on the first poll.",
     "C05": "BMC of try_join: Ok iff all Ok (positional); the error returned is the first one observed, in that poll; nothing polled afterwards; produced values dropped, never returned.",
     "C06": "BMC of race: resolves in the first poll in which a child resolves, with the first child seen to resolve; nothing polled afterwards; losers dropped unfinished; plus the real Indexer proved to be a rotation.",
@@ -357,13 +357,13 @@ TEXT = {
     "C08": "BMC of merge: every item exactly once and in its input's order, None iff all inputs ended (first poll for zero inputs), never Pending in a poll in which an input produced an item.",
     "C09": "BMC of zip: k-th row = k-th items positionally, None in the poll in which an input ends, at most one extra item taken per input, unmatched items dropped not yielded.",
     "C10": "BMC of chain: output is the concatenation in input order; an input is not polled before all earlier inputs returned None; None after the last input (first poll for zero inputs).",
-    "C11": "BMC of FutureGroup over scripted operation histories (insert / remove / reserve / poll, plain and keyed view, slot reuse after removal, growth while a member is pending) with symbolic member behaviour, against a reference set of live flags: len/is_empty/contains_key/capacity after every step, keys of live members distinct, each output exactly once with its key, removed members dropped at removal and never polled, None iff empty. Key set = verif-keyset hook instead of BTreeSet.",
-    "C12": "BMC of StreamGroup over short scripted histories (insert / remove / poll, plain and keyed): items exactly once and in member order with the right key, members that end are dropped and forgotten in that poll (also two in one poll), len/is_empty/contains_key exact, None iff no members remain. Key set = verif-keyset hook instead of BTreeSet.",
+    "C11": "BMC of FutureGroup over scripted operation histories (insert / remove / reserve / poll, plain and keyed view, slot reuse after removal, growth while a member is pending) with symbolic member behaviour, against a reference set of live flags: len/is_empty/contains_key/capacity after every step, keys of live members distinct, each output exactly once with its key, removed members dropped at removal and never polled, None iff empty. Key set = verif-keyset hook instead of BTreeSet. Round 3: several removals (also solver-chosen among three members), extend, polling an empty group, std: slot reuse after remove of a sleeping member, wake-ups from inside member polls.",
+    "C12": "BMC of StreamGroup over short scripted histories (insert / remove / poll, plain and keyed): items exactly once and in member order with the right key, members that end are dropped and forgotten in that poll (also two in one poll), len/is_empty/contains_key exact, None iff no members remain. Key set = verif-keyset hook instead of BTreeSet. Round 3: two removals, a member ending while a later one yields in the same poll, polling an empty group, std: slot reuse after remove, wake-ups from inside member polls (first outcomes scripted).",
     "C15": "BMC of the real Take/Enumerate/Map/Limit adapters (and their private consumers/futures) between a harness source and sink through the public ConcurrentStream/Consumer traits: exactly the first min(n,len) items, none for n = 0, enumerate index = source position, map closure once per item, limit forwarding.",
     "C16": "BMC in the std configuration: scripted children assert that a re-poll after Pending only happens if one of their wakers fired (or they were legitimately re-armed after yielding); unit proofs show that only a wake of sub-waker i sets bit i and that an already-ready child does not wake the task again.",
     "C17": "Unit proof that the real Indexer::iter yields the rotation (offset+k) mod max for every max in 1..=16 and every offset, plus merge-level BMC with an always-ready input at a solver-chosen position: never N consecutive items without one of its items.",
     "C19": "BMC of wait_until (future and stream): inner not polled before the deadline resolved, deadline never polled afterwards, inner polled in the very poll in which the deadline resolves, afterwards identical to the inner.",
-    "C20": "BMC: after every poll that returns Pending every owned child has been polled at least once; children may stay Pending forever (no pending budget), and the family oracles still require the siblings' results to be delivered.",
+    "C20": "BMC: after every poll that returns Pending every owned child has been polled at least once; children may stay Pending forever (no pending budget), and the family oracles still require the siblings' results to be delivered. In the groups: every live member polled before a Pending return; a child woken before a poll that returns Pending was polled in it.",
 }
 
 NOTE = "Trusted: rustc/Kani 0.68 code generation, CBMC 6.11 + CaDiCaL, std's Mutex/Arc/BTreeSet; stubs listed in DESIGN.md section 2.5; bounds per harness in harnesses.json (N <= 3 children, <= 7 polls, <= 7 items); no unwinding (panic = end of path); sequential execution."
